@@ -206,6 +206,7 @@ class PE:
         self.max_steps = 20_000_000
         self.call_stack: list[str] = []
         self.site_hook = None  # callable(kind, call_node, env, args) for domain-sensitive library calls
+        self.order_rep = None    # opt-in: callable giving representative values of symbols for min/max/sorted on symbolic values (only their order matters)
         self.np_scalars = False  # opt-in: elements read from arrays made by numpy.array are NumPy scalars (fsmodel.NpScalar), as in the library
         from . import pe_models
 
